@@ -8,6 +8,7 @@ reduction iterator and live in `Props/C01.lean` (`red_refines_fold` and its coro
 -/
 import ToastyVerif.Gen.Pyramid
 import ToastyVerif.Model.Pyramid
+import ToastyVerif.Gen.Plumbing
 
 namespace C13
 open Pos Pyr
@@ -401,5 +402,9 @@ theorem counts_closed_form (depth : Nat) :
 example : genPos 1 = [⟨1,0,0⟩, ⟨1,1,0⟩, ⟨1,0,1⟩, ⟨1,1,1⟩, ⟨0,0,0⟩] := by decide
 example : Pos.isSub ⟨3, 5, 2⟩ ⟨1, 1, 0⟩ = some true ∧ Pos.isSub ⟨3, 5, 2⟩ ⟨1, 0, 0⟩ = some false
     ∧ Pos.isSub ⟨1, 0, 0⟩ ⟨2, 0, 0⟩ = none := by decide
+
+/-- **entry_points**: the call sites through which this property's workflows reach the modelled functions have, in the source as
+it is now, the argument plumbing the model assumes (facts re-extracted on every run, `Gen/Plumbing.lean`) -/
+theorem entry_points : Gen.Plumbing.pyramid_generator_forwards_coordsys = true ∧ Gen.Plumbing.sample_layer_filtered_forwards_coordsys = true := by decide
 
 end C13
